@@ -568,3 +568,282 @@ Example flat_example :
   decode_msg (map mkp fl) [34; 188; 10; 255; 255; 255; 255; 255; 255; 255; 255; 254] = Ok (VDict (fvals vv fl)) /\
   static_bits_msg (map mkp fl) = Some 96.
 Proof. vm_compute. repeat split. Qed.
+
+(* ====================================================================================== *)
+(* the other direction (C03): decoding a message of such a description and encoding the    *)
+(* decoded values reproduces the message                                                   *)
+(* ====================================================================================== *)
+Lemma emplace_masked_at_end_eq s new mk s' :
+  at_end s -> blen mk = blen new -> emplace_bytes s new (Some mk) = Ok s' ->
+  e_msg s' = e_msg s ++ masked_write (zeros (blen new)) new mk.
+Proof.
+  intros (Hb & Hc & Hu & Hok) Hm H. unfold emplace_bytes in H. rewrite Hb in H. simpl in H.
+  rewrite Hm in H. replace (blen new <? blen new) with false in H by lia.
+  pose proof (blen_nonneg new) as Hn.
+  assert (Tk : take (blen new) mk = mk).
+  { unfold take. rewrite <- Hm. unfold blen. rewrite Nat2Z.id. apply firstn_all. }
+  rewrite Tk in H.
+  rewrite (grow_at_end (e_cur s) (blen new) (e_msg s)) in H by auto.
+  rewrite (grow_at_end (e_cur s) (blen new) (e_used s)) in H by auto.
+  rewrite Hc in H.
+  assert (Z1 : blen (zeros (blen new)) = blen new) by (apply zeros_blen; lia).
+  rewrite <- Z1 in H at 1 3.
+  rewrite slice_at_end in H.
+  assert (Su : slice (blen (e_msg s)) (blen new) (e_used s ++ zeros (blen new)) = zeros (blen new)).
+  { rewrite <- Hc, <- Hu. rewrite <- Z1 at 1. apply slice_at_end. }
+  rewrite Z1 in H. rewrite Su in H.
+  set (New := masked_write (zeros (blen new)) new mk) in *.
+  assert (LNew : blen New = blen new).
+  { unfold New, blen. rewrite masked_write_length; unfold blen, zeros in *; rewrite ?repeat_length; lia. }
+  set (U := mask_or (zeros (blen new)) mk) in *.
+  assert (LU : blen U = blen new).
+  { unfold U, zeros. clear -Hm Hn. unfold blen in *.
+    assert (G : forall n (k : list Z), List.length k = n -> List.length (mask_or (repeat 0 n) k) = n).
+    { induction n as [|n IH]; intros [|x k] Hk; simpl in *; try lia. f_equal. apply IH. lia. }
+    rewrite G; lia. }
+  injection H as <-. cbn.
+  apply splice_at_end. lia.
+Qed.
+
+
+(* writing a value below 2^bl into zeroed bytes through the mask of bl bits: the plain bytes *)
+Lemma masked_zero_region raw bl n :
+  0 < bl -> bl <= 8 * Z.of_nat n -> 0 <= raw < 2 ^ bl ->
+  masked_write (repeat 0 n) (to_be n (raw * 2 ^ 0)) (to_be n ((2 ^ bl - 1) * 2 ^ 0)) = to_be n (raw * 2 ^ 0).
+Proof.
+  intros Hbl Hsz Hraw.
+  assert (HO : bytes_ok (repeat 0 n) = true)
+    by (unfold bytes_ok; apply forallb_forall; intros x Hx; apply repeat_spec in Hx; now subst).
+  assert (Hn : List.length (repeat 0 n) = n) by apply repeat_length.
+  apply nth_ext with (d := 0) (d' := 0).
+  - rewrite masked_write_length; rewrite ?to_be_length, ?repeat_length; lia.
+  - intros j Hj. rewrite masked_write_length in Hj by (rewrite ?to_be_length, ?repeat_length; lia).
+    rewrite repeat_length in Hj.
+    pose proof (region_ok (repeat 0 n) raw bl 0 n HO Hn) as OkN.
+    apply Z.bits_inj'. intros k Hk.
+    destruct (Z.lt_ge_cases k 8) as [K8|K8].
+    + rewrite (region_bits (repeat 0 n) raw bl 0 n Hn Hbl ltac:(lia) ltac:(lia) j k Hj ltac:(lia)).
+      cbv zeta. rewrite testbit_to_be by lia. rewrite Z.pow_0_r, Z.mul_1_r.
+      set (i := 8 * Z.of_nat (n - 1 - j) + k).
+      assert (H0 : (0 <=? i) = true) by (apply Z.leb_le; unfold i; lia). rewrite H0. cbn [andb].
+      rewrite Z.sub_0_r, Z.add_0_l.
+      destruct (i <? bl) eqn:Ei; [reflexivity|]. apply Z.ltb_ge in Ei.
+      rewrite nth_repeat. rewrite Z.bits_0. symmetry.
+      destruct (Z.eq_dec raw 0) as [->|N]; [apply Z.bits_0|].
+      apply Z.bits_above_log2; [lia|]. apply Z.log2_lt_pow2; [lia|].
+      eapply Z.lt_le_trans; [apply Hraw | apply Z.pow_le_mono_r; lia].
+    + rewrite !byte_high_bits; auto.
+      * apply bytes_ok_nth. apply to_be_ok.
+      * apply bytes_ok_nth. exact OkN.
+Qed.
+
+Lemma rev_repeat0 n : rev (repeat 0 n) = repeat 0 n.
+Proof.
+  apply nth_ext with (d := 0) (d' := 0); [now rewrite rev_length|].
+  intros j Hj. rewrite rev_length, repeat_length in Hj.
+  rewrite rev_nth by (rewrite repeat_length; lia). now rewrite !nth_repeat.
+Qed.
+
+(* emplacing the value which was read from the (canonical) bytes w writes w *)
+Lemma emplace_reproduces s v bl bt en hl w raw :
+  at_end s -> 0 < bl -> is_numeric bt && (64 <? bl) = false ->
+  bytes_ok w = true -> blen w = nbytes_of bl 0 ->
+  be_int (if negb hl && is_numeric bt then rev w else w) = raw -> 0 <= raw < 2 ^ bl ->
+  raw_of v bl bt en hl = Ok raw ->
+  exists s', emplace_atomic s v bl bt en hl None = Ok s' /\ at_end s' /\ e_msg s' = e_msg s ++ w /\
+             e_cur s' = e_cur s + blen w /\ e_warn s' = e_warn s /\ e_origin s' = e_origin s.
+Proof.
+  intros Hend Hbl Hwide Hok Hlen Hbe Hraw Hro. pose proof Hend as (Hb & Hc & Hu & Hokm).
+  destruct (nbytes_pos bl 0 Hbl ltac:(lia)) as [Hn1 Hn2].
+  set (n := Z.to_nat (nbytes_of bl 0)).
+  assert (Ln : List.length w = n) by (unfold blen in Hlen; lia).
+  assert (Ex : exists s', emplace_atomic s v bl bt en hl None = Ok s').
+  { unfold emplace_atomic. rewrite Hro. cbn [bind]. replace (bl =? 0) with false by lia.
+    rewrite Hwide. rewrite Hb. cbn [Z.eqb negb andb].
+    apply emplace_masked_at_end_ok; [now apply at_end_set_bit|].
+    destruct (negb hl && is_numeric bt); rewrite ?blen_rev; unfold blen; rewrite !to_be_length; reflexivity. }
+  destruct Ex as (s' & Hs'). exists s'. split; [exact Hs'|].
+  pose proof Hs' as Hshape. unfold emplace_atomic in Hshape. rewrite Hro in Hshape. cbn [bind] in Hshape.
+  replace (bl =? 0) with false in Hshape by lia. rewrite Hwide in Hshape. rewrite Hb in Hshape.
+  cbn [Z.eqb negb andb] in Hshape. fold n in Hshape.
+  match type of Hshape with emplace_bytes _ ?new (Some ?mk) = _ =>
+    assert (Lm : blen mk = blen new)
+      by (destruct (negb hl && is_numeric bt); rewrite ?blen_rev; unfold blen; rewrite !to_be_length; reflexivity);
+    assert (Lnew : blen new = nbytes_of bl 0)
+      by (destruct (negb hl && is_numeric bt); rewrite ?blen_rev; unfold blen; rewrite !to_be_length; unfold n; lia);
+    destruct (emplace_masked_at_end (set_bit s 0) new mk s' (at_end_set_bit s Hend) Lm Hshape)
+      as (w0 & Em & Lw & Ecur & Ebit & Eused & Ewarn & Eo & _);
+    pose proof (emplace_masked_at_end_eq (set_bit s 0) new mk s' (at_end_set_bit s Hend) Lm Hshape) as Eq
+  end.
+  cbn [set_bit e_msg e_cur e_warn e_origin] in *.
+  assert (Ew : e_msg s' = e_msg s ++ w).
+  { rewrite Eq. f_equal.
+    assert (Z0 : zeros (nbytes_of bl 0) = repeat 0 n) by reflexivity.
+    destruct (negb hl && is_numeric bt) eqn:Ef.
+    - rewrite blen_rev. unfold blen at 1. rewrite to_be_length. unfold n at 1. rewrite Z2Nat.id by lia. rewrite Z0.
+      rewrite <- (rev_repeat0 n) at 1.
+      rewrite <- masked_write_rev by (rewrite ?to_be_length, ?repeat_length; lia).
+      rewrite masked_zero_region by (try lia; unfold n; lia).
+      rewrite Z.pow_0_r, Z.mul_1_r. rewrite <- Hbe. rewrite <- (rev_length w) in Ln. rewrite <- Ln.
+      rewrite to_be_be_int by (now rewrite bytes_ok_rev). apply rev_involutive.
+    - unfold blen at 1. rewrite to_be_length. unfold n at 1. rewrite Z2Nat.id by lia. rewrite Z0.
+      rewrite masked_zero_region by (try lia; unfold n; lia).
+      rewrite Z.pow_0_r, Z.mul_1_r. rewrite <- Hbe, <- Ln. now apply to_be_be_int. }
+  split; [|split; [exact Ew|split; [|split; [exact Ewarn | exact Eo]]]].
+  - repeat split; auto.
+    + rewrite Ecur, Ew, blen_app, Hc. lia.
+    + rewrite Ew. unfold bytes_ok. rewrite forallb_app. fold (bytes_ok (e_msg s)). fold (bytes_ok w).
+      now rewrite Hokm, Hok.
+  - lia.
+Qed.
+
+(* the slice w of the message which parameter x occupies is canonical for the value vv(x):
+   no stray bits above the bit length, and the raw value it holds is the one the encoder
+   computes for the decoded value (C03_*_decode_encode: every raw value except the negative
+   zeros of 1C / SM) *)
+Definition canon (vv : name -> value) (x : fdesc) (w : list Z) : Prop :=
+  bytes_ok w = true /\ blen w = fbytes x /\
+  let raw := be_int (if negb (f_hl x) && is_numeric (f_bt x) then rev w else w) in
+  raw < 2 ^ f_bl x /\
+  value_of_raw raw (f_bl x) (f_bt x) (f_en x) (f_hl x) = Ok (vv (fname x)) /\
+  raw_of (vv (fname x)) (f_bl x) (f_bt x) (f_en x) (f_hl x) = Ok raw.
+
+Definition sane (vv : name -> value) (x : fdesc) : Prop :=
+  0 < f_bl x /\ is_numeric (f_bt x) && (64 <? f_bl x) = false /\
+  isinstance_bt (f_pt x) (vv (fname x)) = true /\ isinstance_bt (f_bt x) (vv (fname x)) = true /\
+  match f_const x with Some cv => vv (fname x) = cv | None => True end.
+
+Lemma canon_raw_nonneg vv x w : canon vv x w ->
+  0 <= be_int (if negb (f_hl x) && is_numeric (f_bt x) then rev w else w).
+Proof.
+  intros (Hok & _). destruct (negb (f_hl x) && is_numeric (f_bt x)).
+  - apply be_int_bounds. now rewrite bytes_ok_rev.
+  - now apply be_int_bounds.
+Qed.
+
+Lemma canon_fits vv x w : sane vv x -> canon vv x w -> fits x (vv (fname x)).
+Proof.
+  intros (A & B & C & D & E) Hc. pose proof (canon_raw_nonneg vv x w Hc) as Hnn.
+  destruct Hc as (Hok & Hl & Hlt & Hv & Hr).
+  repeat split; auto. eexists. split; [exact Hr|]. split; [split; [exact Hnn | exact Hlt] | exact Hv].
+Qed.
+
+Section LoopRev.
+  Variable kv : list (name * value).
+  Variable vv : name -> value.
+
+  Lemma enc_loop_reproduces f n oe : forall fl ws s i,
+    at_end s -> Forall2 (fun x w => sane vv x /\ canon vv x w /\
+                                    lookup (fname x) kv = (if is_value x then Some (vv (fname x)) else None)) fl ws ->
+    exists s', enc_go (S (S f)) kv n oe (map mkp fl) i s = Ok s' /\ at_end s' /\ e_warn s' = e_warn s /\
+               e_msg s' = e_msg s ++ concat ws.
+  Proof.
+    induction fl as [|x fl IH]; intros ws s i Hend HF; inversion HF as [|? w ? ws' (Hs & Hc & Hl) HF']; subst.
+    - exists s. cbn [map enc_go concat]. rewrite app_nil_r. auto.
+    - set (s0 := if i =? n - 1 then set_eop s oe else s).
+      assert (Hend0 : at_end s0) by (unfold s0; destruct (i =? n - 1); auto using at_end_set_eop).
+      assert (E0 : e_msg s0 = e_msg s /\ e_warn s0 = e_warn s)
+        by (unfold s0; destruct (i =? n - 1); split; reflexivity).
+      destruct E0 as (Em0 & Ew0).
+      pose proof (canon_raw_nonneg vv x w Hc) as Hnn.
+      destruct Hs as (Hbl & Hwide & Hpt & Hbt & Hcst). destruct Hc as (Hok & Hlen & Hlt & Hv & Hr).
+      (* the parameter writes w *)
+      destruct (emplace_reproduces (set_bit s0 0) (vv (fname x)) (f_bl x) (f_bt x) (f_en x) (f_hl x) w _
+                  (at_end_set_bit s0 Hend0) Hbl Hwide Hok Hlen eq_refl (conj Hnn Hlt) Hr)
+        as (s1 & He1 & Hend1 & Hm1 & Hc1 & Hw1 & Ho1).
+      cbn [set_bit e_msg e_cur e_warn e_origin] in *.
+      assert (Hp : enc_param (S (S f)) (mkp x) kv s0 = Ok (set_bit s1 0)).
+      { unfold mkp, is_value in *. destruct (f_const x) as [cv|].
+        - subst cv. cbn [enc_param]. unfold is_required. cbn [pkind_of negb orb guard bind].
+          unfold vget. fold (fname x). rewrite Hl.
+          cbn [is_none orb guard bind opt_or0 enc_dct std_apply_mask std_used_mask].
+          replace (if negb (f_hl x) && is_numeric (f_bt x) then option_map (@rev Z) None else None) with (@None (list Z))
+            by (destruct (negb (f_hl x) && is_numeric (f_bt x)); reflexivity).
+          rewrite He1. reflexivity.
+        - cbn [enc_param]. unfold is_required. cbn [pkind_of]. fold (fname x). rewrite Hl. cbn [negb orb guard bind].
+          unfold vget. rewrite Hl. rewrite (not_none_of_instance _ _ Hpt). cbn [negb guard bind opt_or0].
+          cbn [enc_dop]. cbn [valid_phys]. rewrite Hpt. cbn [guard bind p2i enc_dct std_apply_mask std_used_mask].
+          replace (if negb (f_hl x) && is_numeric (f_bt x) then option_map (@rev Z) None else None) with (@None (list Z))
+            by (destruct (negb (f_hl x) && is_numeric (f_bt x)); reflexivity).
+          rewrite He1. rewrite ?(not_none_of_instance _ _ Hpt). reflexivity. }
+      assert (Hend1' : at_end (set_bit s1 0)) by now apply at_end_set_bit.
+      destruct (IH ws' (set_bit s1 0) (i + 1) Hend1' HF') as (s' & He2 & Hend2 & Hwarn2 & Hm2).
+      exists s'. split; [|split; [exact Hend2|split]].
+      + cbn [map enc_go]. fold s0. rewrite Hp. cbn [bind]. exact He2.
+      + rewrite Hwarn2. cbn [set_bit e_warn]. congruence.
+      + rewrite Hm2. cbn [set_bit e_msg concat]. rewrite Hm1, Em0. now rewrite app_assoc.
+  Qed.
+End LoopRev.
+
+(* decode then encode: a message made of canonical slices decodes to the values and these
+   values encode to the message *)
+Theorem flat_reencode fl vv ws :
+  Forall2 (fun x w => sane vv x /\ canon vv x w) fl ws -> NoDup (map fname fl) ->
+  decode_msg (map mkp fl) (concat ws) = Ok (VDict (fvals vv fl)) /\
+  encode_msg (map mkp fl) None (VDict (fvals vv (filter is_value fl))) = Ok (concat ws, false).
+Proof.
+  intros HF ND.
+  assert (Hfit : forall x, In x fl -> fits x (vv (fname x))).
+  { clear ND. induction HF as [|x w fl ws (Hs & Hc) HF IH]; intros y Hy; [contradiction|].
+    destruct Hy as [<-|Hy]; [now apply (canon_fits vv x w) | now apply IH]. }
+  destruct (flat_roundtrip fl vv Hfit ND) as (msg & Henc & Hdec & _).
+  (* the encoding is the concatenation of the slices *)
+  assert (Henc2 : encode_msg (map mkp fl) None (VDict (fvals vv (filter is_value fl))) = Ok (concat ws, false)).
+  { set (ps := map mkp fl). set (kv := fvals vv (filter is_value fl)).
+    assert (Hfuel : exists k, fuel_of ps = S (S (S k))).
+    { unfold fuel_of. exists (4 * dop_size 64 (DStruct ps None) + 5)%nat. lia. }
+    destruct Hfuel as (k & Hk).
+    set (s0 := set_eop (set_origin (estate0 None) (e_cur (estate0 None))) false).
+    assert (Hend0 : at_end s0) by (repeat split; reflexivity).
+    assert (HF2 : Forall2 (fun x w => sane vv x /\ canon vv x w /\
+                             lookup (fname x) kv = (if is_value x then Some (vv (fname x)) else None)) fl ws).
+    { assert (G : forall l lw, Forall2 (fun x w => sane vv x /\ canon vv x w) l lw -> incl l fl ->
+                  Forall2 (fun x w => sane vv x /\ canon vv x w /\
+                             lookup (fname x) kv = (if is_value x then Some (vv (fname x)) else None)) l lw).
+      { induction 1 as [|x w l lw (A & B) H IH]; intros Hi; constructor.
+        - split; [exact A|]. split; [exact B|]. apply lookup_filtered; auto. apply Hi. now left.
+        - apply IH. intros y Hy. apply Hi. now right. }
+      apply G; [exact HF | apply incl_refl]. }
+    destruct (enc_loop_reproduces kv vv k (zlen ps) (e_eop (estate0 None)) fl ws s0 0 Hend0 HF2)
+      as (s' & He & Hend' & Hwarn & Hm).
+    unfold encode_msg. rewrite Hk. cbn [enc_composite]. cbn [estate0 e_bit Z.eqb guard bind].
+    assert (Hi : incl (filter is_value fl) fl) by (intros y Hy; apply filter_In in Hy; tauto).
+    pose proof (known_params vv (filter is_value fl) fl Hi) as Hkp. fold ps in Hkp. fold kv in Hkp. rewrite Hkp.
+    cbn [guard bind].
+    unfold enc_go in He. fold ps in He. unfold s0 in He. rewrite He. cbn [bind].
+    pose proof (keys_flat (S (S k)) fl (set_eop s' false)) as Hkeys. unfold keys_go in Hkeys. fold ps in Hkeys.
+    rewrite Hkeys. cbn [bind e_msg e_warn set_origin set_cur set_eop].
+    rewrite Hwarn, Hm. reflexivity. }
+  split; [|exact Henc2].
+  rewrite Henc in Henc2. injection Henc2 as <-. exact Hdec.
+Qed.
+
+(* the hypothesis is met by every unsigned integer slice without stray bits *)
+Lemma canon_uint vv nm bl hl cst w :
+  0 < bl -> bytes_ok w = true -> blen w = nbytes_of bl 0 ->
+  be_int (if negb hl && true then rev w else w) < 2 ^ bl ->
+  vv nm = VInt (be_int (if negb hl && true then rev w else w)) ->
+  canon vv (mkF nm bl BUint None hl BUint cst) w.
+Proof.
+  intros Hbl Hok Hlen Hlt Hv. unfold canon. cbn [f_bl f_bt f_en f_hl f_name fname fbytes is_numeric].
+  split; [exact Hok|]. split; [exact Hlen|]. cbv zeta. split; [exact Hlt|].
+  set (raw := be_int (if negb hl && true then rev w else w)) in *.
+  assert (Hnn : 0 <= raw).
+  { unfold raw. destruct (negb hl && true); [apply be_int_bounds; now rewrite bytes_ok_rev | now apply be_int_bounds]. }
+  rewrite Hv. split.
+  - reflexivity.
+  - apply raw_of_uint; lia.
+Qed.
+
+Example reencode_example :
+  let fl := [mkF [115] 8 BUint None true BUint (Some (VInt 34)); mkF [112; 50] 12 BUint None false BUint None] in
+  let vv := fun nm => if bytes_eqb nm [115] then VInt 34 else VInt 2748 in
+  decode_msg (map mkp fl) [34; 188; 10] = Ok (VDict (fvals vv fl)) /\
+  encode_msg (map mkp fl) None (VDict (fvals vv (filter is_value fl))) = Ok ([34; 188; 10], false) /\
+  (* stray bits above the 12 bit value are not reproduced: the slice BC FA is not canonical *)
+  (exists v, decode_msg (map mkp fl) [34; 188; 250] = Ok v /\
+             encode_msg (map mkp fl) None (VDict (fvals vv (filter is_value fl))) <> Ok ([34; 188; 250], false)).
+Proof.
+  cbv zeta. split; [vm_compute; reflexivity|]. split; [vm_compute; reflexivity|].
+  eexists. split; [vm_compute; reflexivity|]. vm_compute. discriminate.
+Qed.
